@@ -137,6 +137,11 @@ impl BlkFile {
     }
 }
 
+#[cfg(rbp_verif)]
+pub(crate) fn verif_parse_blk_index(file_name: &str) -> Option<u64> {
+    BlkFile::parse_blk_index(file_name, "blk", ".dat")
+}
+
 #[cfg(test)]
 mod tests {
     use super::*;
